@@ -142,6 +142,15 @@ func runC03(l *world.Lab, c caseC03, rec *kit.Recorder) error {
 			}
 		}
 		if fired == 0 {
+			// the same packet on the same state made a different sequence of downstream calls than
+			// in the fault-free run a moment ago: a step was skipped this time, so its failure can
+			// no longer be turned into an error acknowledgement at all
+			got := fs.Sites()
+			for i := 0; i < len(got) && i < len(sites) && i <= faults[0]; i++ {
+				if got[i] != sites[i] {
+					return fmt.Errorf("the step %d:%s of the fault-free run was SKIPPED when the same packet was executed again on the same state (calls now %v, before %v): its failure cannot yield an error acknowledgement any more", i, sites[i], got, sites)
+				}
+			}
 			return fmt.Errorf("harness: fault %v was not reached (calls %v, fault-free calls %v)", faults, fs.Sites(), sites)
 		}
 		var names []string
